@@ -307,7 +307,7 @@ class Program:
                 return v
             if desc == 'bool':
                 return z3.Bool(name)
-            if desc == 'val':
+            if desc in ('val', 'val+'):     # 'val+': same symbolic value; the concrete candidates are positive (replay.small_values)
                 return z3.Const(name, Val)
             if desc in ('series', 'arr:val', 'arr:int', 'arr:bool', 'list:int', 'list:val', 'array:val'):
                 kind = {'series': 'val'}.get(desc, desc.split(':')[-1])
